@@ -221,6 +221,12 @@ where
     let cap = spec["cap"].as_u64().unwrap() as usize;
     let t = spec["T"].as_u64().unwrap() as usize;
     let mut pc = P::pedersen(t);
+    if let Some(c) = spec["h_scale"].as_str() {
+        // a different value generator: H' = c * H
+        let c = sc_unhex(c);
+        pc.h_base = &pc.h_base * c;
+        pc.h_base_compressed = pc.h_base.compress();
+    }
     if let Some(c) = spec["gb0_eq_cH"].as_str() {
         // degenerate Pedersen generators: Gb_0 = c * H (two openings can then share one commitment)
         let c = sc_unhex(c);
@@ -711,9 +717,10 @@ where
         if !vgens.is_empty() {
             rec["gens"] = Value::Array(vgens);
         }
+        let vlog = v["log"].as_bool().unwrap_or(true);
         fm::msm_take();
-        fm::msm_log_level(if log_msm { 1 } else { 0 });
-        verif_log::enable(log_merlin);
+        fm::msm_log_level(if log_msm && vlog { 1 } else { 0 });
+        verif_log::enable(log_merlin && vlog);
         let t0 = std::time::Instant::now();
         let res = catch_unwind(AssertUnwindSafe(|| RangeProof::<P>::verify_batch(&mut transcripts, &statements, &proofs, mode)));
         let dt = t0.elapsed().as_secs_f64();
